@@ -128,7 +128,12 @@ PtAttrFirstItem(mac) ==
                  !.members[ix] = [@ EXCEPT !.attrs = <<A("sv::attr", "serde(rename = \"zz\")"), A("sv::msg", "exec")>>,
                                            !.params = <<[P("x", "u32") EXCEPT !.attrs = <<A("serde", "default")>>],
                                                         [P("y", "String") EXCEPT !.attrs = <<A("cfg", "all()"), A("allow", "unused")>>]>>]]
-PtFamily == {PtAttrFirstItem(mac) : mac \in {"contract", "interface"}} \cup {PtLintItem(i) : i \in 1..4} \cup {PtIfacesItem(n) : n \in {2, 3, 5}} \cup {PtItem(mac, c) : mac \in {"contract", "interface", "entry_points"}, c \in [1..5 -> 0..PtChoices]}
+(* the contract macro invoked with an argument (the pre-1.0 `module = ..` marker on interface implementations): nothing is generated, *)
+(* the block is re-emitted like any other -- framework attributes and handler-parameter attributes removed                          *)
+PtModuleItem ==
+    LET base == PtItem("contract", <<1, 2, 1, 1, 1>>) IN
+    [base EXCEPT !.id = "PM1", !.mattr = "module = crate::counter"]
+PtFamily == {PtModuleItem} \cup {PtAttrFirstItem(mac) : mac \in {"contract", "interface"}} \cup {PtLintItem(i) : i \in 1..4} \cup {PtIfacesItem(n) : n \in {2, 3, 5}} \cup {PtItem(mac, c) : mac \in {"contract", "interface", "entry_points"}, c \in [1..5 -> 0..PtChoices]}
 
 (* ------------------------------------------------------------------ fw *)
 Marker(i) == A("doc", "= \"m" \o ToString(i) \o "\"")
@@ -220,7 +225,9 @@ ArgTypes == {TyNone} \cup {TyDirect(TP(i)) : i \in 1..GenParams} \cup {TyOpt(TP(
             \cup {TyVecPair(TP(i), TP(j)) : i, j \in 1..GenParams}
 GP(n, t) == [n |-> n, ty |-> t.ty, attrs |-> <<>>, mentions |-> t.mentions]
 WherePool == [i \in 1..GenParams |-> [text |-> TP(i) \o ": Clone", mentions |-> <<TP(i)>>]]
-             \o (IF GenParams >= 2 THEN <<[text |-> "T1: PartialEq<T2>", mentions |-> <<"T1", "T2">>]>> ELSE <<>>)
+             \o (IF GenParams >= 2 THEN <<[text |-> "T1: PartialEq<T2>", mentions |-> <<"T1", "T2">>],
+                                           \* another parameter mentioned only inside an associated-type binding of the bound
+                                           [text |-> "T2: IntoIterator<Item = T1>", mentions |-> <<"T1", "T2">>]>> ELSE <<>>)
 GenItem(ti, te, tq, tr, id) ==      \* types of: instantiate arg, exec arg, query arg, query response
     [BaseItem(id, "gen", "contract") EXCEPT
        !.generics = Params, !.wheres = WherePool,
@@ -370,6 +377,10 @@ RuleFamily == {
     Bad(RuleHost, "X_features", "unknown_feature", [RuleHost EXCEPT !.attrs = @ \o <<A("sv::features", "bogus")>>]),
     Bad(RuleHost, "X_customarg", "unknown_sv_custom_argument", [RuleHost EXCEPT !.attrs = @ \o <<A("sv::custom", "foo = Empty")>>]),
     Bad(RuleHost, "X_messages", "trailing_tokens_in_sv_messages", [RuleHost EXCEPT !.attrs = @ \o <<A("sv::messages", "i1 as Iface1 garbage")>>]),
+    \* unknown arguments of the custom(..) part of sv::messages: alone, after and before a known one
+    Bad(RuleHost, "X_msgcustom1", "unknown_argument_in_messages_custom", [RuleHost EXCEPT !.attrs = @ \o <<A("sv::messages", "i1 as Iface1: custom(bogus)")>>]),
+    Bad(RuleHost, "X_msgcustom2", "unknown_argument_in_messages_custom", [RuleHost EXCEPT !.attrs = @ \o <<A("sv::messages", "i1 as Iface1: custom(msg, bogus)")>>]),
+    Bad(RuleHost, "X_msgcustom3", "unknown_argument_in_messages_custom", [RuleHost EXCEPT !.attrs = @ \o <<A("sv::messages", "i1 as Iface1: custom(bogus, query)")>>]),
     Bad(RuleHost, "X_msgattr", "unknown_kind_in_sv_msg_attr", [RuleHost EXCEPT !.attrs = @ \o <<A("sv::msg_attr", "bogus, derive(PartialOrd)")>>]),
     Bad(RuleHost, "X_override", "unknown_kind_in_override_entry_point", [RuleHost EXCEPT !.attrs = @ \o <<A("sv::override_entry_point", "bogus = crate::f(M)")>>]),
     Bad(RuleHost, "X_alias", "query_with_aliased_result_and_no_resp", SetMember(RuleHost, 4, [RuleHost.members[4] EXCEPT !.ret = "MyResult"])),
